@@ -761,7 +761,7 @@ package rosmar
 //@   ensures [C07:removeXattrs.invalid-key-is-an-error] count("call:validateXattrKey") >= 1 && callret("validateXattrKey", 0) != nil ==> err != nil
 //@   loop 1001 invariant [C07:removeXattrs.only-removes] forall k: Str :: xattrs[k] == NOX || xattrs[k] == atentry(xattrs[k])
 //@   loop 1001 invariant [C07:removeXattrs.only-the-named] forall k: Str :: xattrs[k] == atentry(xattrs[k]) || (exists i: Int :: 0 <= i && i < len(xattrKeys) && xattrKeys[i] == k)
-//@   loop 1001 body [C07:removeXattrs.one-per-key] iter("mapdelete") == 1
+//@   loop 1001 body [C07:removeXattrs.one-per-key] iter("mapdelete") <= 1 && (iter("mapdelete") == 0 ==> err != nil)
 //@   ensures [C07:removeXattrs.never-adds] forall k: Str :: xget(rawResult, k) == NOX || xget(rawResult, k) == xget(rawXattrs, k)
 //@   ensures [C05,C07:removeXattrs.keeps-the-others] forall k: Str :: xget(rawResult, k) == xget(rawXattrs, k) || (exists i: Int :: 0 <= i && i < len(xattrKeys) && xattrKeys[i] == k)
 //@   ensures [C05,C07:removeXattrs.valid]  validX(rawResult) && (isnull(rawXattrs) ==> isnull(rawResult))
